@@ -6,6 +6,10 @@ pub mod c06;
 pub mod c06_l2;
 pub mod c07;
 pub mod c07_l2;
+pub mod c12;
+pub mod c12_l2;
+pub mod c17;
+pub mod c17_l2;
 pub mod c18;
 pub mod c19;
 pub mod c19_l2;
@@ -19,6 +23,8 @@ pub fn dispatch(run: &mut Run) -> bool {
     "C05" => c05::run(run),
     "C06" => c06::run(run),
     "C07" => c07::run(run),
+    "C12" => c12::run(run),
+    "C17" => c17::run(run),
     "C18" => c18::run(run),
     "C19" => c19::run(run),
     _ => return false,
